@@ -1,4 +1,5 @@
 import Enc.Model.Conc.CowCache
+import Enc.Gen.Pools
 import Enc.Base.Bytes
 /-! line-protocol handlers, area `conc` (C09): replay a harness schedule on the copy-on-write cache model.
 Harness events: L<i> = thread i runs from the start of its call up to (not including) the publication of its new cache
@@ -49,6 +50,12 @@ def handle (op : String) (args : List String) : Option (String × String × Stri
     let ths ← parseNats ths
     let (_, mem) := simulate nT ths (sched.splitOn ",")
     pure (mem, "-", "")
+  | "conc.pooldisc", _ =>
+    -- per regenerated sync.Pool site: ok / bad from the decidable discipline predicate; S = what the property demands
+    let m := Gen.Pools.allSites.map fun s =>
+      s.1 ++ "=" ++ (if Model.Conc.Pool.Disciplined Gen.Pools.numVars Gen.Pools.numFields s.2 then "ok" else "bad")
+    let sp := Gen.Pools.allSites.map fun s => s.1 ++ "=ok"
+    pure (",".intercalate m, ",".intercalate sp, "")
   | _, _ => none
 
 end Enc.Driver.Conc
